@@ -123,20 +123,29 @@ def layout_plan(tier, rng, linkable_only=False):
         ]
     else:
         plan = [
-            ("full",    dict(skels=["s3", "x"], mode="bfs", maxgaps=1, maxper=1, allowed="all", choices=ALL_CHOICES, full=True), 2, None, None),
+            ("full",    dict(skels=["s3"], mode="bfs", maxgaps=1, maxper=1, allowed="all", choices=ALL_CHOICES, full=True), 2, None, None),
+            ("fullx",   dict(skels=["x", "s2"], mode="bfs", maxgaps=1, maxper=2, allowed="first", choices=CORE_CHOICES + ["BCM", "LCE", "BOM", "VT"], full=True), 2, None, None),
             ("single",  dict(skels=["x", "p2", "p3", "ed", "s2", "s3"], mode="bfs", maxgaps=1, maxper=1, allowed="all", choices=ALL_CHOICES), 3, None, None),
             ("samegap", dict(skels=["x", "p2", "p3", "ed"], mode="bfs", maxgaps=1, maxper=2, allowed="reps", choices=ALL_CHOICES), 3, None, None),
             ("triple",  dict(skels=["x", "ed"], mode="bfs", maxgaps=1, maxper=3, allowed="first", choices=CORE_CHOICES + ["LCE", "BOM"]), 2, None, None),
             ("twogaps", dict(skels=["x", "p2", "ed"], mode="bfs", maxgaps=2, maxper=1, allowed="first", choices=ALL_CHOICES), 3, None, None),
             ("sim",     dict(skels=["x", "p2", "p3", "ed"], mode="sim", maxgaps=0, maxper=2, allowed="all", choices=ALL_CHOICES, density=20), 1, 2500, 600),
-            ("simdense", dict(skels=["p2", "ed"], mode="sim", maxgaps=0, maxper=2, allowed="all", choices=ALL_CHOICES, density=70), 1, 600, 600),
+            ("simdense", dict(skels=["p2", "ed"], mode="sim", maxgaps=0, maxper=2, allowed="all", choices=ALL_CHOICES, density=70), 1, 300, 600),
         ]
-    if linkable_only:
-        out = []
-        for name, cfg, w, sim, depth in plan:
-            cfg = dict(cfg, skels=[s for s in cfg["skels"] if s in LINKABLE] or ["s3"])
-            out.append((name, cfg, w, sim, depth))
-        plan = out
+    if linkable_only:          # C23: layouts of the featgen skeletons only (they must link), a lighter plan: cases are sampled
+        if tier == "quick":
+            plan = [
+                ("single",  dict(skels=["s3"], mode="bfs", maxgaps=1, maxper=1, allowed="all", choices=ALL_CHOICES), 2, None, None),
+                ("sim",     dict(skels=["s2"], mode="sim", maxgaps=0, maxper=2, allowed="all", choices=ALL_CHOICES, density=25), 1, 30, 600),
+            ]
+        else:
+            plan = [
+                ("single",  dict(skels=["p2", "ed"], mode="bfs", maxgaps=1, maxper=1, allowed="all", choices=ALL_CHOICES), 3, None, None),
+                ("samegap", dict(skels=["p3", "s2"], mode="bfs", maxgaps=1, maxper=2, allowed="reps", choices=ALL_CHOICES), 2, None, None),
+                ("twogaps", dict(skels=["s2", "s3"], mode="bfs", maxgaps=2, maxper=1, allowed="first", choices=ALL_CHOICES), 2, None, None),
+                ("sim",     dict(skels=["p2", "p3", "ed"], mode="sim", maxgaps=0, maxper=2, allowed="all", choices=ALL_CHOICES, density=20), 1, 400, 600),
+                ("simdense", dict(skels=["ed", "s2"], mode="sim", maxgaps=0, maxper=2, allowed="all", choices=ALL_CHOICES, density=70), 1, 60, 600),
+            ]
     return plan
 
 
@@ -507,10 +516,7 @@ def run_c23(pid, tier, replay):
         gen_info = {}
     else:
         # generators: FileFeatures cases (+ schema), line-table cross-check, layouts of the featgen skeletons
-        lay_plan = [p for p in layout_plan(tier, rng, linkable_only=True) if p[0] != "full"]
-        if tier == "quick":
-            lay_plan = [p for p in lay_plan if p[0] in ("single", "sim")]
-            lay_plan = [(n, dict(c, skels=["s3"] if n == "single" else ["s2"]), w, 30 if s else None, d) for n, c, w, s, d in lay_plan]
+        lay_plan = layout_plan(tier, rng, linkable_only=True)
         res = _parallel([lambda: _gen_ff(wd, tier), lambda: gen_layouts(wd, lay_plan, 2), lambda: _check_lines(binary, wd, tier)], 3)
         (ff_runs, ff_res), lay, (nlines, lines_r) = res
         _t("generators done", t0)
@@ -520,7 +526,7 @@ def run_c23(pid, tier, replay):
         nschema = _check_schema(binary, schema[0])
         for (name, *_), (cf, _seen, _r, _s) in zip(ff_runs, ff_res):
             casefiles["ff" + name] = cf
-        nlay = _sample_layouts([lay[n][0] for n in lay], 40 if tier == "quick" else 1500, rng, os.path.join(wd, "layouts_c23.jsonl"))
+        nlay = _sample_layouts([lay[n][0] for n in lay], 40 if tier == "quick" else 500, rng, os.path.join(wd, "layouts_c23.jsonl"))
         casefiles["lay"] = os.path.join(wd, "layouts_c23.jsonl")
         gen_info = {"ff": {n[0]: len(r[1]) for n, r in zip(ff_runs, ff_res)}, "layouts_sampled": nlay,
                     "layouts_generated": {n: lay[n][1] for n in lay}, "line_tables_checked": nlines, "schema_fields_checked": nschema}
